@@ -12,6 +12,11 @@ NATIVES = ['arith_pairs_prime', 'arith_mixed_prime', 'mix_int_prime', 'pow_prime
 def run(tier, seed):
     t0 = time.time()
     tasks = [('lib.native', 'run_natives', ('contracts.secfld', [n], tier)) for n in NATIVES]
+    # m-party runs (every configuration up to 7 parties, with and without PRSS): field operations, and reciprocal / division with the FORCED event that
+    # the first blinding factor is 0 (retry path: its thresholds and resharing only matter for m >= 3)
+    from props import _mp
+    from sx import mpinst
+    tasks += _mp.concrete(tier, ['field_ops', 'recip_retry'], mpinst.CONFIGS_THOROUGH)
     obs = run_tasks(tasks)
     return finish('C04', tier, seed, obs, 'other', t0,
                   explanation='bounded exhaustive contract evaluation on the real functions: secure field types are built by the real SecFld through every construction '
